@@ -64,6 +64,7 @@ type Thread struct {
 	rok    bool
 	rpanic any
 
+	nextSite  string
 	nspawn    int
 	exited    bool
 	spawnSite string
@@ -759,6 +760,28 @@ func Yield(sub string) {
 		return
 	}
 	e.point(opYield, sub, callerSite(2))
+}
+
+// YieldSkip is Yield whose site is skip frames further up (runtime wrappers).
+func YieldSkip(sub string, skip int) {
+	e := ex
+	if e == nil || e.inKill() || e.advancing {
+		return
+	}
+	site := e.cur.nextSite
+	e.cur.nextSite = ""
+	if site == "" {
+		site = callerSite(2 + skip)
+	}
+	e.point(opYield, sub, site)
+}
+
+// At records the source position of the synchronisation call that follows
+// (inserted by the instrumenter before Lock/RLock/Wait statements).
+func At(site string) {
+	if e := ex; e != nil && !e.killing {
+		e.cur.nextSite = site
+	}
 }
 
 // YieldAt is Yield with a precomputed site.
